@@ -3,8 +3,12 @@ package main
 import (
 	"fmt"
 	"go/ast"
+	"go/token"
+	"go/types"
 	"sort"
 	"strings"
+
+	"golang.org/x/tools/go/ssa"
 )
 
 // Rename-tolerant binding of contract identifiers.
@@ -131,6 +135,9 @@ func (e *Env) resolves(name string) bool {
 	if sig, ok := e.g.w.specFuncs[name]; ok && len(sig.Args) == 0 {
 		return true
 	}
+	if to, ok := e.g.renames[name]; ok && to != name {
+		return true // mapped by the source-order alignment
+	}
 	return false
 }
 
@@ -244,4 +251,107 @@ func (g *Gen) bindRenamed(env *Env, ct *Contract, clauses []*Clause, protect map
 		parts = append(parts, fmt.Sprintf("%s -> %s", u, found[u]))
 	}
 	return "contract identifiers bound to renamed locals: " + strings.Join(parts, ", ")
+}
+
+// ---------------------------------------------------------------------------
+// Source-order alignment. A contract may carry a `locals` clause: the named
+// locals (and captured variables) of the function in source order, recorded
+// when the contract was written (bin/gen-locals). When a name used by the
+// contract no longer exists, the recorded list is aligned with the current
+// list (longest common subsequence of unchanged names); names that sit between
+// the same unchanged neighbours, in equal number, are matched in order. A
+// renamed local is thereby mapped to its new name. As with the trial binding,
+// a wrong mapping cannot make a wrong proof succeed.
+
+func orderedLocals(fn *ssa.Function) []string {
+	type pn struct {
+		pos  token.Pos
+		name string
+	}
+	var all []pn
+	seen := map[string]bool{}
+	for _, p := range fn.Params {
+		seen[p.Name()] = true
+	}
+	add := func(pos token.Pos, name string) {
+		if name == "" || name == "_" || seen[name] || !pos.IsValid() {
+			return
+		}
+		seen[name] = true
+		all = append(all, pn{pos, name})
+	}
+	for _, fv := range fn.FreeVars {
+		add(fv.Pos(), fv.Name())
+	}
+	for _, b := range fn.Blocks {
+		for _, ins := range b.Instrs {
+			switch x := ins.(type) {
+			case *ssa.Alloc:
+				if x.Comment != "" && !strings.Contains(x.Comment, " ") && x.Comment != "complit" && x.Comment != "slicelit" && x.Comment != "varargs" && x.Comment != "new" && x.Comment != "makeslice" {
+					add(x.Pos(), x.Comment)
+				}
+			case *ssa.DebugRef:
+				if id, ok := x.Expr.(*ast.Ident); ok {
+					if obj, isVar := x.Object().(*types.Var); isVar && !obj.IsField() {
+						add(obj.Pos(), id.Name)
+					}
+				}
+			}
+		}
+	}
+	sort.SliceStable(all, func(i, j int) bool { return all[i].pos < all[j].pos })
+	var out []string
+	for _, p := range all {
+		out = append(out, p.name)
+	}
+	return out
+}
+
+// alignLocals maps recorded names to current names.
+func alignLocals(recorded, current []string) map[string]string {
+	n, m := len(recorded), len(current)
+	lcs := make([][]int, n+1)
+	for i := range lcs {
+		lcs[i] = make([]int, m+1)
+	}
+	for i := n - 1; i >= 0; i-- {
+		for j := m - 1; j >= 0; j-- {
+			if recorded[i] == current[j] {
+				lcs[i][j] = lcs[i+1][j+1] + 1
+			} else if lcs[i+1][j] >= lcs[i][j+1] {
+				lcs[i][j] = lcs[i+1][j]
+			} else {
+				lcs[i][j] = lcs[i][j+1]
+			}
+		}
+	}
+	out := map[string]string{}
+	i, j := 0, 0
+	var ga, gb []string
+	flush := func() {
+		if len(ga) == len(gb) {
+			for k := range ga {
+				out[ga[k]] = gb[k]
+			}
+		}
+		ga, gb = nil, nil
+	}
+	for i < n && j < m {
+		switch {
+		case recorded[i] == current[j]:
+			flush()
+			i++
+			j++
+		case lcs[i+1][j] >= lcs[i][j+1]:
+			ga = append(ga, recorded[i])
+			i++
+		default:
+			gb = append(gb, current[j])
+			j++
+		}
+	}
+	ga = append(ga, recorded[i:]...)
+	gb = append(gb, current[j:]...)
+	flush()
+	return out
 }
